@@ -238,6 +238,9 @@ def choose_variant(P, rnd):
     if v["carrier"] != "dense" and rnd.random() < 0.5: v["explicit_zeros"] = True
     # other units: the whole Hamiltonian times a power of two (exact in floating point), the absolute tolerance given in the same units
     v["scale_exp"] = rnd.choice([0, 0, 0, 0, 0, -70, -30, 40]) if not v["int_h0"] else 0
+    # H_0 as it comes out of a numerical change of basis: zero off the diagonal only up to rounding (far below atol), in whatever carrier
+    if not v["int_h0"] and v["designation"] not in ("rotated", "biorthogonal") and rnd.random() < 0.3:
+        v["h0_noise"] = rnd.randrange(2**31)
     return v
 
 def snap(x):
@@ -265,6 +268,10 @@ def run_impl_numeric(P, requests, v, rnd):
     if v.get("int_all"): mats = {n: np.rint(m.real).astype(int) for n, m in mats.items()}
     unit = 2.0 ** v.get("scale_exp", 0)
     if unit != 1.0: mats = {n: m * unit for n, m in mats.items()}
+    if v.get("h0_noise") is not None:
+        nrng = np.random.default_rng(v["h0_noise"]); scale = 3e-15 * unit
+        noise = nrng.uniform(-1, 1, size=(d, d)) * scale; noise = (noise + noise.T) / 2; np.fill_diagonal(noise, 0)
+        mats[zero_n] = mats[zero_n] + noise
     snapshot = None
     R = np.eye(d, dtype=complex)          # rotation inside degenerate levels (canonical coordinates)
     kw = {}
@@ -539,6 +546,7 @@ def main(seed, ncases, driver, out, mode="all"):
             if variant["int_h0"]: num_stats["int_h0"] = num_stats.get("int_h0", 0) + 1
             if variant.get("level_rotation"): num_stats["level_rotation"] = num_stats.get("level_rotation", 0) + 1
             if variant.get("explicit_zeros"): num_stats["explicit_zeros"] = num_stats.get("explicit_zeros", 0) + 1
+            if variant.get("h0_noise") is not None: num_stats["h0_noise"] = num_stats.get("h0_noise", 0) + 1
             if variant.get("sparse_vectors"): num_stats["sparse_vectors"] = num_stats.get("sparse_vectors", 0) + 1
             if variant.get("scale_exp"): num_stats["units=2^%d" % variant["scale_exp"]] = num_stats.get("units=2^%d" % variant["scale_exp"], 0) + 1
             try:
